@@ -65,6 +65,14 @@ static int *slist, slist_n, slist_i;
 static long *spur_idx;
 static int spur_n;
 static long weak_cas_count;
+/* futex-wait choices (optional, default off): a muggle_sync_wait that WOULD block may instead
+ * return -1/EINTR (interrupted, logged with c = 2) or 0 (spurious wake-up, c = 3) without
+ * blocking.  rand mode: 5th / 6th optional numbers <fspur%> <fwake%>; list mode: entries
+ * "f<k>" / "w<k>" in the spur-indices token name the k-th would-block futex wait. */
+static int fspur = 0, fwake = 0;
+static long fwait_count;
+static long *fint_idx, *fwk_idx;
+static int fint_n, fwk_n;
 static int rr_next;
 
 static uint64_t rnd(void)
@@ -83,7 +91,7 @@ long vs_steps(void) { return steps; }
 void vs_reset(void)
 {
 	NT = 0; nn = 0; nrng = 0; nmtx = 0; steps = 0; run_status = 0; cur_running = -1;
-	weak_cas_count = 0; slist_i = 0; rr_next = 0;
+	weak_cas_count = 0; slist_i = 0; rr_next = 0; fwait_count = 0;
 	memset(T, 0, sizeof(T));
 }
 void vs_set_budget(long b) { budget = b; }
@@ -135,11 +143,15 @@ void vs_set_schedule(const char *spec)
 	char kind[16];
 	free(slist); slist = NULL; slist_n = 0; slist_i = 0;
 	free(spur_idx); spur_idx = NULL; spur_n = 0;
+	free(fint_idx); fint_idx = NULL; fint_n = 0;
+	free(fwk_idx); fwk_idx = NULL; fwk_n = 0;
+	fspur = 0; fwake = 0;
 	if (sscanf(spec, "%15s", kind) != 1) { mode = 0; rs = 1; return; }
 	if (strcmp(kind, "rand") == 0) {
-		unsigned long long sd = 1; int a = 50, b = 0, c = 0;
-		sscanf(spec, "%*s %llu %d %d %d", &sd, &a, &b, &c);
+		unsigned long long sd = 1; int a = 50, b = 0, c = 0, d = 0, e = 0;
+		sscanf(spec, "%*s %llu %d %d %d %d %d", &sd, &a, &b, &c, &d, &e);
 		mode = 0; rs = sd * 0x9E3779B97F4A7C15ULL + 12345; stick = a; spur = b; cvspur = c;
+		fspur = d; fwake = e;
 	} else {
 		mode = 1; rs = 99; spur = 0; cvspur = 0;
 		const char *p = spec + strlen(kind);
@@ -151,7 +163,15 @@ void vs_set_schedule(const char *spec)
 		spur_idx = (long *)malloc(sizeof(long) * 64);
 		if (strcmp(tok, "-") != 0) {
 			char *q = tok;
-			while (*q && spur_n < 64) { spur_idx[spur_n++] = strtol(q, &q, 10); if (*q == ',') q++; else break; }
+			fint_idx = (long *)malloc(sizeof(long) * 64);
+			fwk_idx = (long *)malloc(sizeof(long) * 64);
+			while (*q) {
+				if (*q == 'f') { q++; if (fint_n < 64) fint_idx[fint_n++] = strtol(q, &q, 10); else strtol(q, &q, 10); }
+				else if (*q == 'w') { q++; if (fwk_n < 64) fwk_idx[fwk_n++] = strtol(q, &q, 10); else strtol(q, &q, 10); }
+				else if (spur_n < 64) spur_idx[spur_n++] = strtol(q, &q, 10);
+				else break;
+				if (*q == ',') q++; else break;
+			}
 		}
 		slist = (int *)malloc(sizeof(int) * (strlen(p) / 2 + 2));
 		while (*p) {
@@ -333,6 +353,26 @@ int muggle_sync_wait(muggle_sync_t *addr, muggle_sync_t val, const struct timesp
 		vs_after();
 		errno = EAGAIN;
 		return -1;
+	}
+	{
+		/* schedule choice for a wait that would block (never taken unless asked for) */
+		long k = fwait_count++;
+		int how = 0;
+		if (mode == 0) {
+			if (fspur > 0 || fwake > 0) {
+				int r = (int)(rnd() % 100);
+				if (r < fspur) how = 2; else if (r < fspur + fwake) how = 3;
+			}
+		} else {
+			for (int i = 0; i < fint_n; i++) if (fint_idx[i] == k) how = 2;
+			for (int i = 0; i < fwk_n; i++) if (fwk_idx[i] == k) how = 3;
+		}
+		if (how) {
+			printf("E %d fwait %s none %lld %lld %d\n", me, nm(addr, buf), (long long)val, (long long)curv, how);
+			vs_after();
+			if (how == 2) { errno = EINTR; return -1; }
+			return 0;
+		}
 	}
 	printf("E %d fwait %s none %lld %lld 1\n", me, nm(addr, buf), (long long)val, (long long)curv);
 	T[me].state = ST_BLOCKED; T[me].wkind = W_FUTEX; T[me].wobj = addr;
